@@ -135,7 +135,7 @@ def run(ctx):
                   workers=1, coverage=False)
     rows = json.load(open(fs))
     prows = json.load(open(fp))
-    ctx.rule = ('slice rows: every (start, stop in -M..M or absent, step in 1..M or absent, n in 0..M); non-trivial = '
+    ctx.rule = ('slice rows: every (start, stop in -M..M or absent, step in -M..M except 0, or absent, n in 0..M); non-trivial = '
                 'selects >= 1 index with at least one bound negative/absent/over-range or step > 1; '
                 'sample cases distinct by (N, n), non-trivial when 1 < N < n; parse rows distinct by part-class tuple')
     for row in rows:
@@ -145,7 +145,7 @@ def run(ctx):
         got_gen = list(s.gen_indices(n))
         got_cnt = s.count(n)
         got_first = s.first(n)
-        nontriv = len(idx) > 0 and (a is None or b is None or a < 0 or b < 0 or b > n or (c or 1) > 1)
+        nontriv = len(idx) > 0 and (a is None or b is None or a < 0 or b < 0 or b > n or (c or 1) != 1)
         ctx.case(('slice', a, b, c, n), nontriv)
         bad = None
         if got_idx != idx:
@@ -222,7 +222,7 @@ def run(ctx):
         else:
             span = rng.choice([5, 50, big])
             a, b = [rng.choice([None, rng.randint(-span, span)]) for _ in range(2)]
-            c = rng.choice([None, 1, 2, 3, rng.randint(1, span)])
+            c = rng.choice([None, 1, 2, 3, rng.randint(1, span), -1, -2, -rng.randint(1, span)])
             obj = S.Slice(a, b, c)
             tr = [dict(op='new_slice', a=[] if a is None else [a], b=[] if b is None else [b],
                        c=[] if c is None else [c])]
@@ -249,7 +249,7 @@ def run(ctx):
         ev = traces[t][l - 1] if l and l <= len(traces[t]) else None
         ctx.fail('selector trace %d rejected at event %s: %s on %s' % (t, l, json.dumps(ev)[:300], json.dumps(traces[t][0])),
                  dict(kind='trace', selector=traces[t][0], event=ev, l=l), sig=dict(kind='trace'))
-    ctx.assumptions += ['step >= 1 (the property quantifies over positive steps only)',
+    ctx.assumptions += ['step is any non-zero integer or absent (step 0 is not a slice: Python refuses it)',
                         'a rejected option string is one for which create_slice_or_sample raises']
     ctx.explanation = ('TLC checks the stepping machines against the abstract operators for all selectors with '
                        'MaxN=%d; the abstract operators are then evaluated by TLC on the same domain and every row '
